@@ -206,3 +206,30 @@ Example analyze_example :
   let edges := [(0,1); (1,0); (1,2); (2,2); (3,4); (0,5); (1,5)] in
   set_eqb (analyze 8 edges [0] [(6,5); (2,7)]) [0;1;2;5;6;7] = true.
 Proof. vm_compute. reflexivity. Qed.
+
+(** * re-analysis: closing an already closed set again, with more templates and more flags *)
+Lemma Clo_mono edges edges' F F' x :
+  (forall e, In e edges -> In e edges') -> (forall f, In f F -> Clo edges' F' f) -> Clo edges F x -> Clo edges' F' x.
+Proof. intros He HF H. induction H as [f Hf | u t _ IH Hin]; [apply HF; exact Hf|].
+  apply (Clo_step edges' F' u t IH). apply He. exact Hin. Qed.
+
+(* marks found in the store (any subset of an earlier closure) plus new flags, over a grown inclusion graph:
+   the second analysis gives exactly what one analysis of everything would give *)
+Theorem reanalysis_exact edges edges' F F' marks :
+  (forall e, In e edges -> In e edges') ->
+  (forall m, In m marks -> Clo edges F m) -> (forall f, In f F -> In f marks) ->
+  forall x, Clo edges' (F' ++ marks) x <-> Clo edges' (F' ++ F) x.
+Proof. intros He Hm HF x. split; intros H.
+  - apply (Clo_mono edges' edges' (F' ++ marks) (F' ++ F) x (fun e h => h)); [|exact H].
+    intros f Hf. apply in_app_or in Hf. destruct Hf as [Hf|Hf].
+    + apply Clo_flag. apply in_or_app. left. exact Hf.
+    + apply (Clo_mono edges edges' F (F' ++ F) f He); [|apply Hm; exact Hf].
+      intros g Hg. apply Clo_flag. apply in_or_app. right. exact Hg.
+  - apply (Clo_mono edges' edges' (F' ++ F) (F' ++ marks) x (fun e h => h)); [|exact H].
+    intros f Hf. apply Clo_flag. apply in_app_or in Hf. apply in_or_app. destruct Hf as [Hf|Hf]; [left; exact Hf | right; apply HF; exact Hf]. Qed.
+
+Theorem closure_idempotent edges F marks :
+  (forall m, In m marks <-> Clo edges F m) -> forall x, Clo edges marks x <-> Clo edges F x.
+Proof. intros Hm x. split; intros H.
+  - apply (Clo_mono edges edges marks F x (fun e h => h)); [|exact H]. intros f Hf. apply Hm. exact Hf.
+  - apply (Clo_mono edges edges F marks x (fun e h => h)); [|exact H]. intros f Hf. apply Clo_flag. apply Hm. apply Clo_flag. exact Hf. Qed.
